@@ -10,7 +10,7 @@ def content(n):
     return bytes((i * 131 + (i >> 8) * 7 + 5) % 256 for i in range(n))
 
 
-def guarded(fn, secs=12):
+def guarded(fn, secs=60):
     res = {}
 
     def run():
@@ -112,7 +112,7 @@ def replay_reads(inp):
         (0, None, [("prefetch",), ("read", 10)], -1, None),
         (200000, lambda off, n: 7777, [("prefetch",), ("seek", 150000), ("read", 4000), ("seek", 10), ("read", 70000)], -1, 2),
     ]
-    n = ival(inp, "programs", 6)
+    n = ival(inp, "programs", 40 if inp.get("tier") == "thorough" else 6)
     for i in range(n):
         size = rng.choice([0, 1, 100, 32768, 32769, 70000, 200000, 307200])
         k = rng.choice([None, 1, 100, 5000, 32767])
